@@ -57,6 +57,39 @@ package align
 //@   loop 1
 //@     invariant idx >= 0 && ok == has(a.seqmap, tmpname) && (idx == 0 ==> tmpname == name) && (idx > 0 ==> has(a.seqmap, name))
 
+//@ func (*seqbag).AddSequenceChar
+//@   props C01 C19
+//@   requires wf(sb)
+//@   ensures wf(sb) && result == nil
+//@   ensures forall r :: 0 <= r && r < old(nrows(sb)) ==> row(sb, r) == old(row(sb, r))
+//@   ensures !old(has(sb.seqmap, name)) ==> nrows(sb) == old(nrows(sb)) + 1 && rowname(sb, old(nrows(sb))) == name && sameslice(row(sb, old(nrows(sb))).sequence, sequence) && fresh(row(sb, old(nrows(sb))))
+//@   ensures old(has(sb.seqmap, name)) && sb.ignoreidentical == IGNORE_NAME ==> nrows(sb) == old(nrows(sb))
+//@   ensures nrows(sb) == old(nrows(sb)) || nrows(sb) == old(nrows(sb)) + 1
+//@   ensures sb.alphabet == old(sb.alphabet) && sb.ignoreidentical == old(sb.ignoreidentical) && sb.seqmap == old(sb.seqmap) && (base(sb.seqs) == old(base(sb.seqs)) || fresh(sb.seqs))
+//@   modifies sb.seqs, sb.seqs[+], map(sb.seqmap)
+//@   loop 1
+//@     invariant idx >= 0 && ok == has(sb.seqmap, tmpname) && (idx == 0 ==> tmpname == name) && (idx > 0 ==> has(sb.seqmap, name))
+
+// FilterLength: a row is kept iff its length is within both bounds (a negative bound is no bound)
+//@ pure func flkeep(sb *seqbag, min int, max int, r int) bool = (min < 0 || rowlen(sb, r) >= min) && (max < 0 || rowlen(sb, r) <= max)
+//@ pure func flrank(sb *seqbag, min int, max int, n int) int = (n <= 0 ? 0 : flrank(sb, min, max, n-1) + (flkeep(sb, min, max, n-1) ? 1 : 0))
+
+//@ func (*seqbag).FilterLength
+//@   props C01
+//@   requires wf(sb)
+//@   ensures err == nil && wf(sb)
+//@   ensures nrows(sb) == old(flrank(sb, minlength, maxlength, nrows(sb)))
+//@   ensures forall r :: 0 <= r && r < old(nrows(sb)) && old(flkeep(sb, minlength, maxlength, r)) ==> rowname(sb, old(flrank(sb, minlength, maxlength, r))) == old(rowname(sb, r)) && sameslice(row(sb, old(flrank(sb, minlength, maxlength, r))).sequence, old(row(sb, r).sequence))
+//@   ensures sb.alphabet == old(sb.alphabet)
+//@   modifies sb.seqs, sb.seqmap
+//@   loop 1
+//@     invariant err == nil && wf(sb) && sameslice(oldseqs, old(sb.seqs)) && fresh(sb.seqmap) && fresh(sb.seqs) && sb.alphabet == old(sb.alphabet)
+//@     invariant nrows(sb) == old(flrank(sb, minlength, maxlength, $i)) && 0 <= nrows(sb) && nrows(sb) <= $i
+//@     invariant forall r :: 0 <= r && r < $i ==> 0 <= old(flrank(sb, minlength, maxlength, r)) && old(flrank(sb, minlength, maxlength, r)) <= nrows(sb) && (old(flkeep(sb, minlength, maxlength, r)) ==> old(flrank(sb, minlength, maxlength, r)) < nrows(sb))
+//@     invariant forall r :: 0 <= r && r < $i && old(flkeep(sb, minlength, maxlength, r)) ==> rowname(sb, old(flrank(sb, minlength, maxlength, r))) == old(rowname(sb, r)) && sameslice(row(sb, old(flrank(sb, minlength, maxlength, r))).sequence, old(row(sb, r).sequence))
+//@     invariant forall q :: 0 <= q && q < nrows(sb) ==> exists r :: 0 <= r && r < $i && old(rowname(sb, r)) == rowname(sb, q)
+//@     decreases len(oldseqs) - $i
+
 // ---- C04: extraction and coordinates ----
 
 //@ func (*align).SubAlign
